@@ -22,7 +22,8 @@ RULE = ('One responder with 1-3 settled services (sharing or not sharing a host 
         'browser never re-adds the instance. Non-trivial = >= 1 query whose answer was still queued (aggregation, TC hold or '
         'protection queue) when the withdrawal was requested.')
 ASSUMPTIONS = [
-    'the registration\'s own announcements have completed before the withdrawal (the statement is about queries and queued answers)',
+    'in three quarters of the cases the registration\'s own announcements have completed before the withdrawal; in the rest the withdrawn '
+    'service is unregistered 5-465 ms after its registration call returned, while its announcement task is still running',
     'observation window is 5 s after the withdrawal',
 ]
 BUDGET = {'quick': {'examples': 2000}, 'thorough': {'examples': 16000, 'shards': 16}}
@@ -62,6 +63,12 @@ def scenario(draw) -> Dict[str, Any]:
     else:
         k = draw(st.integers(0, n - 1))
         items.append((0, 1, {'kind': 'unregister', 'svc': k, 'await': draw(st.booleans())}))
+        if draw(st.integers(0, 3)) == 0:
+            # the withdrawn service was registered only just before: probing ends 525 ms after the call, and its three
+            # announcements (225 ms apart, not awaited by the application) are still going on when it is unregistered
+            services[k]['late'] = True
+            pre_updates = [u for u in pre_updates if u['svc'] != k]
+            items.append((-draw(st.sampled_from([530, 560, 700, 760, 900, 990])), 0, {'kind': 'register', 'svc': k}))
         if how == 'unregister2' and n > 1:
             items.append((draw(st.sampled_from([0, 1, 100, 125, 300])), 2, {'kind': 'unregister', 'svc': (k + 1) % n, 'await': True}))
     n_q = draw(st.integers(1, 5))
@@ -86,7 +93,8 @@ def scenario(draw) -> Dict[str, Any]:
               'tc': draw(st.sampled_from([False, False, False, True]))}
         qid += 1
         order = draw(st.sampled_from([0, 3]))     # before or after the withdrawal when offsets tie
-        if draw(st.integers(0, 3)) == 0 and off <= 0:
+        if draw(st.integers(0, 3)) == 0 and off <= 0 and not services[kk].get('late'):
+            # (not for a service that is yet to be registered: a peer announcing its name first would be a name conflict)
             # a sighting shortly before the query pushes its answers into the 1 s protection queue
             items.append((off - draw(st.sampled_from([1, 300, 900])), 0, {'kind': 'sighting', 'svc': kk,
                                                                          'which': ['ptr', 'srv', 'txt', 'addr']}))
@@ -130,10 +138,12 @@ def check(case: Dict[str, Any]) -> Dict[str, Any]:
     t0 = run.t_settled_ms
     rel = lambda ms: round(ms - t0, 3)
     services = [rp.Svc(d) for d in run.sc['services']]       # after the updates, if any
-    live = [True] * len(services)
+    live = [not d.get('late') for d in run.sc['services']]
     withdrawals: List[Dict[str, Any]] = []
     for ev in run.api_events:
-        if ev['kind'] == 'unregister':
+        if ev['kind'] == 'registered':
+            live[ev['svc']] = True
+        elif ev['kind'] == 'unregister':
             k = ev['svc']
             live[k] = False
             s = services[k]
@@ -217,5 +227,8 @@ def check(case: Dict[str, Any]) -> Dict[str, Any]:
         classes.append('tc')
     if case.get('pre_updates'):
         classes.append('registry-reached-through-updates')
+    if any(ev['kind'] == 'registered' for ev in run.api_events) and any(w_['kind'] == 'unregister' and run.sc['services'][w_['svc']].get('late')
+                                                                       for w_ in withdrawals):
+        classes.append('withdrawn-while-still-announcing')
     return {'nontrivial': queued_at_withdrawal, 'classes': classes, 'max': {'queries': len(run.queries)},
             'sample': {'case': case}}
